@@ -55,6 +55,29 @@ async def p_nested_barrier(mpc, arg):
     return r
 
 
+async def p_fire_forget(mpc, arg):
+    """result-less MPyC coroutines (return type None, like mpc.peek) started and never awaited"""
+    await mpc.start()
+    secint = mpc.SecInt(8)
+    log = []
+
+    @mpc.coroutine
+    async def bg(x, tag) -> None:
+        for _ in range(3):
+            x = x * x - 1
+            await mpc.output(x % 5)
+        log.append(tag)
+    x = mpc.input(secint(2), senders=0)
+    bg(x, 'a')
+    bg(x + 1, 'b')
+    mpc.peek(x, 'peek')
+    await mpc.barrier()
+    done_at_barrier = sorted(log)
+    bg(x, 'c')
+    await mpc.shutdown()
+    return [done_at_barrier, sorted(log)]
+
+
 def run(ctx):
     wd = tlc.make_workdir()
     try:
@@ -67,14 +90,14 @@ def run(ctx):
             res = mc_program(ctx, wd, 'main_noawait', 4, 1, fair=False, terminal=False, timeout=3000)
             if not res.ok:
                 ctx.violation(f'C35:model:main_noawait@4:{res.violation}', {'cex_tail': res.cex[-2:]})
-        extra = {'pipeline': p_pipeline, 'nested_barrier': p_nested_barrier, 'm_noawait': MIRRORS['main_noawait'],
+        extra = {'fire_forget': p_fire_forget, 'pipeline': p_pipeline, 'nested_barrier': p_nested_barrier, 'm_noawait': MIRRORS['main_noawait'],
                  'm_mul2': MIRRORS['main_mul2']}
-        names = ['pipeline', 'nested_barrier', 'm_noawait', 'm_mul2', 'barrier', 'done_results']
+        names = ['fire_forget', 'pipeline', 'nested_barrier', 'm_noawait', 'm_mul2', 'barrier', 'done_results']
         if not ctx.quick:
             names += ['await_fork', 'random_ops', 'seclist', 'conv']
         cfgs = [(3, 1), (2, 0), (5, 2)] if ctx.quick else [(2, 0), (3, 0), (3, 1), (4, 1), (5, 1), (5, 2)]
         runs = corpus_check(ctx, 'C35', names, cfgs, nrand=3 if ctx.quick else 10,
-                            budget_events=200000 if ctx.quick else 1500000, clauses=CLAUSES, nfam=4,
+                            budget_events=90000 if ctx.quick else 1500000, clauses=CLAUSES, nfam=4,
                             extra_progs=extra)
         nb = sum(1 for r in runs for e in r['events'] if e['ev'] == 'barrier_out')
         nc = sum(1 for r in runs for e in r['events'] if e['ev'] == 'close')
